@@ -1,19 +1,26 @@
 /* harness/h_tree.c — engine `tree` (C03): runs op files on the real Tree (src/Tree.c) of the tree under test.
  *
- * op file (one op per line; trees are named by small integers, keys are Int (`i`) or String (`s`), values Int):
+ * op file (one op per line; trees are named by small integers):
+ *   key kinds    i = Int (8 bytes), s = String (8 bytes), w = struct K3 { int64_t a, b, c; } with a lexicographic Cmp
+ *                instance (24 bytes), written `a,b,c`
+ *   value kinds  (none) = Int (8 bytes), 3 = struct V3 { int64_t w[3]; } (24 bytes), 5 = struct V5 (40 bytes): plain
+ *                structs without instances, written `x,y,z` / `x,y,z,p,q`
  *   auto 0|1                 dump the whole tree after every mutating op (default 1) or only `n=`
- *   new T i|s [k v]...       set T k v      rem T k      get T k      mem T k      len T      resize T n
+ *   new T <kind> [k v]...    kind = key kind followed by value kind: i s w i3 s3 w3 i5 s5 w5
+ *   set T k v      rem T k      get T k      mem T k      len T      resize T n
  *   assign T S               copy T S       iter T       riter T      del T        check T
  *   remroot T                rem of the key at the root          rem2 T   rem of the first node (preorder) with two children
  *
  * O lines (reproduced verbatim by lean/Driver/Tree.lean from the model):
- *   O <op> <outcome> n=<nitems> ok=<0|1> h=<height> t=<preorder "(Ck:v left right)", "." = NULL | #hash when n>40>
+ *   O <op> <outcome> n=<nitems> ok=<0|1> h=<height> sz=<ksize>/<vsize> t=<preorder "(Ck:v left right)", "." = NULL | #hash when n>40>
+ *   (k and v with every 8-byte word, comma separated, read from the node with the widths of the key / value type)
  *   O get <value>|KeyError      O mem 0|1      O len <n>      O iter k:v ...      O riter k:v ...
  * The dump is white-box: colours from the parent word's low bit, children from the node's link fields.
  *
  * Direct oracle (independent of the Lean model): a sorted array of (key, value) per tree, maintained by this file with
  * its own comparison (integer compare / strcmp), plus a red-black checker.  X lines:
- *   tree-map      len/mem/get or the in-order contents differ from the reference map
+ *   tree-map      len/mem/get or the in-order contents differ from the reference map (whole keys and whole values: every word)
+ *   tree-size     ksize/vsize of the Tree are not the sizes of its key/value types
  *   tree-keyerror KeyError raised for a present key or not raised for an absent one, or another exception
  *   tree-iter     forward iteration is not the strictly monotone key sequence / backward is not its reverse / no Terminal
  *   tree-order    in-order key sequence of the nodes is not strictly monotone
@@ -21,7 +28,6 @@
  *   tree-parent   parent(child) != node, or parent(root) != NULL
  *   tree-count    number of nodes != nitems
  *   tree-height   height > 2*log2(n+1)
- *   tree-self-assign   assign(t, t) changed t   (known finding, see KNOWN_FINDINGS.txt)
  */
 #include "common.h"
 #include <signal.h>
@@ -31,74 +37,121 @@
 #define MAXT 64
 #define BIG 40
 
-typedef struct { long i; char* s; long v; } Ent;       /* reference entry: key (i or s) and value */
-typedef struct { Ent* e; size_t n, cap; int isstr; } RefMap;
+#define MAXW 5
+/* probe types (file scope: run-time types built in main's frame die before Cello_Exit) */
+struct K3 { int64_t a, b, c; };
+static int K3_Cmp(var x, var y) {
+  struct K3* p = x; struct K3* q = cast(y, type_of(x));
+  if (p->a != q->a) return p->a < q->a ? -1 : 1;
+  if (p->b != q->b) return p->b < q->b ? -1 : 1;
+  if (p->c != q->c) return p->c < q->c ? -1 : 1;
+  return 0;
+}
+var K3 = Cello(K3, Instance(Cmp, K3_Cmp));
+struct V3 { int64_t w[3]; };  var V3 = Cello(V3);
+struct V5 { int64_t w[5]; };  var V5 = Cello(V5);
+
+enum { KI = 0, KS = 1, KW = 2 };
+typedef struct { long k[3]; const char* s; } KeyV;      /* a key: k[0] (Int), s (String), k[0..2] (K3) */
+typedef struct { long k[3]; char* s; long v[MAXW]; } Ent;       /* reference entry: key and whole value */
+typedef struct { Ent** e; size_t n, cap; int kk; int vw; } RefMap;  /* sorted array of pointers; kk = key kind, vw = words in a value */
+
+static int kwords(int kk) { return kk == KW ? 3 : 1; }
+static var ktype_of(int kk) { return kk == KS ? String : kk == KW ? K3 : Int; }
+static var vtype_of(int vw) { return vw == 3 ? V3 : vw == 5 ? V5 : Int; }
 
 static size_t lineno = 0;
 static int automode = 1;
 static size_t st_ops = 0, st_set_new = 0, st_set_upd = 0, st_rem = 0, st_rem2 = 0, st_remroot = 0, st_remblack = 0,
-  st_keyerr = 0, st_maxn = 0, st_maxh = 0, st_checks = 0, st_iters = 0;
+  st_keyerr = 0, st_maxn = 0, st_maxh = 0, st_checks = 0, st_iters = 0, st_rem2_wide = 0;
 
 /* ------------------------------------------------------------------------------------------------ reference map */
-static int ref_cmp(const RefMap* r, const Ent* a, long ki, const char* ks) {
-  if (r->isstr) { int c = strcmp(a->s, ks); return c < 0 ? -1 : c > 0 ? 1 : 0; }
-  return a->i < ki ? -1 : a->i > ki ? 1 : 0;
+static int ref_cmp(const RefMap* r, const Ent* a, const KeyV* k) {
+  if (r->kk == KS) { int c = strcmp(a->s, k->s); return c < 0 ? -1 : c > 0 ? 1 : 0; }
+  for (int i = 0; i < kwords(r->kk); i++) if (a->k[i] != k->k[i]) return a->k[i] < k->k[i] ? -1 : 1;
+  return 0;
 }
 /* first index whose key is >= the key (ascending array) */
-static size_t ref_lower(const RefMap* r, long ki, const char* ks) {
+static size_t ref_lower(const RefMap* r, const KeyV* k) {
   size_t lo = 0, hi = r->n;
-  while (lo < hi) { size_t mid = (lo + hi) / 2; if (ref_cmp(r, &r->e[mid], ki, ks) < 0) lo = mid + 1; else hi = mid; }
+  while (lo < hi) { size_t mid = (lo + hi) / 2; if (ref_cmp(r, r->e[mid], k) < 0) lo = mid + 1; else hi = mid; }
   return lo;
 }
-static int ref_find(const RefMap* r, long ki, const char* ks, size_t* at) {
-  size_t p = ref_lower(r, ki, ks); *at = p;
-  return p < r->n && ref_cmp(r, &r->e[p], ki, ks) == 0;
+static int ref_find(const RefMap* r, const KeyV* k, size_t* at) {
+  size_t p = ref_lower(r, k); *at = p;
+  return p < r->n && ref_cmp(r, r->e[p], k) == 0;
 }
+static void ent_free(Ent* e) { free(e->s); free(e); }
 static void ref_clear(RefMap* r) {
-  for (size_t i = 0; i < r->n; i++) free(r->e[i].s);
+  for (size_t i = 0; i < r->n; i++) ent_free(r->e[i]);
   r->n = 0;
 }
-static void ref_set(RefMap* r, long ki, const char* ks, long v) {
+static void ref_set(RefMap* r, const KeyV* k, const long* v) {
   size_t p;
-  if (ref_find(r, ki, ks, &p)) { r->e[p].v = v; return; }
-  if (r->n == r->cap) { r->cap = r->cap ? r->cap * 2 : 16; r->e = realloc(r->e, r->cap * sizeof(Ent)); }
-  memmove(&r->e[p+1], &r->e[p], (r->n - p) * sizeof(Ent));
-  r->e[p].i = ki; r->e[p].s = ks ? strdup(ks) : NULL; r->e[p].v = v; r->n++;
+  if (ref_find(r, k, &p)) { memcpy(r->e[p]->v, v, sizeof r->e[p]->v); return; }
+  if (r->n == r->cap) { r->cap = r->cap ? r->cap * 2 : 16; r->e = realloc(r->e, r->cap * sizeof(Ent*)); }
+  memmove(&r->e[p+1], &r->e[p], (r->n - p) * sizeof(Ent*));
+  Ent* e = malloc(sizeof(Ent));
+  memcpy(e->k, k->k, sizeof e->k); e->s = k->s ? strdup(k->s) : NULL;
+  memcpy(e->v, v, sizeof e->v); r->e[p] = e; r->n++;
 }
-static int ref_rem(RefMap* r, long ki, const char* ks) {
+static int ref_rem(RefMap* r, const KeyV* k) {
   size_t p;
-  if (!ref_find(r, ki, ks, &p)) return 0;
-  free(r->e[p].s);
-  memmove(&r->e[p], &r->e[p+1], (r->n - p - 1) * sizeof(Ent));
+  if (!ref_find(r, k, &p)) return 0;
+  ent_free(r->e[p]);
+  memmove(&r->e[p], &r->e[p+1], (r->n - p - 1) * sizeof(Ent*));
   r->n--; return 1;
 }
 static void ref_copy(RefMap* dst, const RefMap* src) {
   if (dst == src) return;
-  ref_clear(dst); dst->isstr = src->isstr;
-  if (dst->cap < src->n) { dst->cap = src->n + 16; dst->e = realloc(dst->e, dst->cap * sizeof(Ent)); }
-  for (size_t i = 0; i < src->n; i++) { dst->e[i] = src->e[i]; if (src->e[i].s) dst->e[i].s = strdup(src->e[i].s); }
+  ref_clear(dst); dst->kk = src->kk; dst->vw = src->vw;
+  if (dst->cap < src->n) { dst->cap = src->n + 16; dst->e = realloc(dst->e, dst->cap * sizeof(Ent*)); }
+  for (size_t i = 0; i < src->n; i++) {
+    Ent* e = malloc(sizeof(Ent)); *e = *src->e[i]; if (e->s) e->s = strdup(e->s);
+    dst->e[i] = e;
+  }
   dst->n = src->n;
 }
+static KeyV ent_key(const Ent* e) { KeyV k; memcpy(k.k, e->k, sizeof k.k); k.s = e->s; return k; }
 
 /* ------------------------------------------------------------------------------------------------ hashing (same in Lean) */
 static uint64_t mixstep(uint64_t h, uint64_t x) { return (h ^ x) * 0x100000001b3ULL; }
 #define FNV_INIT 0xcbf29ce484222325ULL
 static uint64_t str_hash(const char* s) { uint64_t h = FNV_INIT; for (; *s; s++) h = mixstep(h, (unsigned char)*s); return h; }
+static uint64_t words_hash(const long* w, int n) {      /* one word: the word itself; more: FNV over the words */
+  if (n == 1) return (uint64_t)w[0];
+  uint64_t h = FNV_INIT; for (int i = 0; i < n; i++) h = mixstep(h, (uint64_t)w[i]); return h;
+}
 
 /* ------------------------------------------------------------------------------------------------ white-box access */
+/* Keys and values are read from the node as raw 8-byte words, with the widths of the key / value TYPE (not through
+   m->ksize / m->vsize), at the places Tree_Key / Tree_Val designate. */
 static var node_of_key(var key) { return (char*)key - sizeof(struct Header) - 3 * sizeof(var); }
-static long node_val(struct Tree* m, var node) { return (long)c_int(Tree_Val(m, node)); }
-static uint64_t node_keyhash(struct Tree* m, var node, int isstr) {
-  return isstr ? str_hash(c_str(Tree_Key(m, node))) : (uint64_t)c_int(Tree_Key(m, node));
+static void node_valwords(struct Tree* m, var node, int vw, long* out) {
+  if (vw == 1) { out[0] = (long)c_int(Tree_Val(m, node)); return; }
+  memcpy(out, Tree_Val(m, node), vw * sizeof(long));
 }
-static uint64_t tree_hash(struct Tree* m, var node, int isstr) {
+static void obj_valwords(var val, int vw, long* out) {
+  if (vw == 1) { out[0] = (long)c_int(val); return; }
+  memcpy(out, val, vw * sizeof(long));
+}
+static void node_keywords(struct Tree* m, var node, int kk, long* out) {   /* kk != KS */
+  if (kk == KI) { out[0] = (long)c_int(Tree_Key(m, node)); return; }
+  memcpy(out, Tree_Key(m, node), 3 * sizeof(long));
+}
+static uint64_t node_keyhash(struct Tree* m, var node, int kk) {
+  if (kk == KS) return str_hash(c_str(Tree_Key(m, node)));
+  long w[3]; node_keywords(m, node, kk, w); return words_hash(w, kwords(kk));
+}
+static uint64_t node_valhash(struct Tree* m, var node, int vw) { long w[MAXW]; node_valwords(m, node, vw, w); return words_hash(w, vw); }
+static uint64_t tree_hash(struct Tree* m, var node, const RefMap* r) {
   if (node == NULL) return 0x9E3779B97F4A7C15ULL;
   uint64_t h = FNV_INIT;
   h = mixstep(h, Tree_Is_Red(m, node) ? 1 : 0);
-  h = mixstep(h, node_keyhash(m, node, isstr));
-  h = mixstep(h, (uint64_t)node_val(m, node));
-  h = mixstep(h, tree_hash(m, *Tree_Left(m, node), isstr));
-  h = mixstep(h, tree_hash(m, *Tree_Right(m, node), isstr));
+  h = mixstep(h, node_keyhash(m, node, r->kk));
+  h = mixstep(h, node_valhash(m, node, r->vw));
+  h = mixstep(h, tree_hash(m, *Tree_Left(m, node), r));
+  h = mixstep(h, tree_hash(m, *Tree_Right(m, node), r));
   return h;
 }
 
@@ -108,15 +161,22 @@ static void dput(const char* s) {
   if (dlen + l + 1 > dcap) { dcap = (dcap + l + 64) * 2; dbuf = realloc(dbuf, dcap); }
   memcpy(dbuf + dlen, s, l + 1); dlen += l;
 }
-static void preorder(struct Tree* m, var node, int isstr, int depth) {
+static void dput_words(const long* w, int n) {
+  char b[32];
+  for (int i = 0; i < n; i++) { snprintf(b, sizeof b, i ? ",%ld" : "%ld", w[i]); dput(b); }
+}
+static void dput_entry(struct Tree* m, var node, const RefMap* r) {      /* key:value */
+  long w[MAXW];
+  if (r->kk == KS) dput(c_str(Tree_Key(m, node))); else { node_keywords(m, node, r->kk, w); dput_words(w, kwords(r->kk)); }
+  dput(":"); node_valwords(m, node, r->vw, w); dput_words(w, r->vw);
+}
+static void preorder(struct Tree* m, var node, const RefMap* r, int depth) {
   if (node == NULL) { dput("."); return; }
   if (depth > 200) { dput("<deep>"); return; }
-  char b[64];
   dput(Tree_Is_Red(m, node) ? "(R" : "(B");
-  if (isstr) dput(c_str(Tree_Key(m, node))); else { snprintf(b, sizeof b, "%ld", (long)c_int(Tree_Key(m, node))); dput(b); }
-  snprintf(b, sizeof b, ":%ld ", node_val(m, node)); dput(b);
-  preorder(m, *Tree_Left(m, node), isstr, depth + 1); dput(" ");
-  preorder(m, *Tree_Right(m, node), isstr, depth + 1); dput(")");
+  dput_entry(m, node, r); dput(" ");
+  preorder(m, *Tree_Left(m, node), r, depth + 1); dput(" ");
+  preorder(m, *Tree_Right(m, node), r, depth + 1); dput(")");
 }
 
 /* ------------------------------------------------------------------------------------------------ red-black checker */
@@ -137,14 +197,22 @@ static int walk(struct Tree* m, var node, var parent, Walk* w, int depth, int* h
   return bl + (Tree_Is_Red(m, node) ? 0 : 1);
 }
 
+/* whole key of the node == key of the reference entry (every word) */
 static int key_matches(struct Tree* m, var node, const RefMap* r, const Ent* e) {
-  if (r->isstr) return strcmp(c_str(Tree_Key(m, node)), e->s) == 0;
-  return (long)c_int(Tree_Key(m, node)) == e->i;
+  if (r->kk == KS) return strcmp(c_str(Tree_Key(m, node)), e->s) == 0;
+  long w[3]; node_keywords(m, node, r->kk, w);
+  return memcmp(w, e->k, kwords(r->kk) * sizeof(long)) == 0;
 }
-static int node_cmp(struct Tree* m, var a, var b, int isstr) {   /* own comparison of two nodes' keys */
-  if (isstr) { int c = strcmp(c_str(Tree_Key(m, a)), c_str(Tree_Key(m, b))); return c < 0 ? -1 : c > 0 ? 1 : 0; }
-  long x = (long)c_int(Tree_Key(m, a)), y = (long)c_int(Tree_Key(m, b));
-  return x < y ? -1 : x > y ? 1 : 0;
+/* whole value of the node == value of the reference entry (every word) */
+static int val_matches(struct Tree* m, var node, const RefMap* r, const Ent* e) {
+  long w[MAXW]; node_valwords(m, node, r->vw, w);
+  return memcmp(w, e->v, r->vw * sizeof(long)) == 0;
+}
+static int node_cmp(struct Tree* m, var a, var b, int kk) {   /* own comparison of two nodes' keys */
+  if (kk == KS) { int c = strcmp(c_str(Tree_Key(m, a)), c_str(Tree_Key(m, b))); return c < 0 ? -1 : c > 0 ? 1 : 0; }
+  long x[3], y[3]; node_keywords(m, a, kk, x); node_keywords(m, b, kk, y);
+  for (int i = 0; i < kwords(kk); i++) if (x[i] != y[i]) return x[i] < y[i] ? -1 : 1;
+  return 0;
 }
 
 static var first_two_children(struct Tree* m, var node) {
@@ -164,11 +232,14 @@ static int rb_check(struct Tree* m, const RefMap* r, int* height_out, int report
   int rootred = Tree_Is_Red(m, m->root);
   int desc = 1, mono = 1;
   for (size_t i = 0; i + 1 < W.count; i++) {
-    int c = node_cmp(m, W.inorder[i], W.inorder[i+1], r->isstr);
+    int c = node_cmp(m, W.inorder[i], W.inorder[i+1], r->kk);
     if (c <= 0) desc = 0;
-    if (c == 0 || (i > 0 && c != node_cmp(m, W.inorder[0], W.inorder[1], r->isstr))) mono = 0;
+    if (c == 0 || (i > 0 && c != node_cmp(m, W.inorder[0], W.inorder[1], r->kk))) mono = 0;
   }
-  int ok = !rootred && !W.rr && !W.bh_bad && !W.deep && desc && W.count == m->nitems;
+  /* the sizes the Tree works with are those of its key / value types */
+  int sized = m->ktype == ktype_of(r->kk) && m->vtype == vtype_of(r->vw)
+    && m->ksize == (size_t)kwords(r->kk) * 8 && m->vsize == (size_t)r->vw * 8;
+  int ok = !rootred && !W.rr && !W.bh_bad && !W.deep && desc && W.count == m->nitems && (sized || W.count == 0);
   if (report) {
     if (rootred) X("sig=tree-rb line=%zu what=root is red", lineno);
     if (W.rr) X("sig=tree-rb line=%zu what=%d red node(s) with a red child", lineno, W.rr);
@@ -176,6 +247,8 @@ static int rb_check(struct Tree* m, const RefMap* r, int* height_out, int report
     if (W.parent_bad) X("sig=tree-parent line=%zu what=%d node(s) whose parent link is not the node that points to them", lineno, W.parent_bad);
     if (!mono) X("sig=tree-order line=%zu what=in-order key sequence of the nodes is not strictly monotone", lineno);
     if (W.count != m->nitems) X("sig=tree-count line=%zu what=%zu nodes reachable but nitems=%zu", lineno, W.count, m->nitems);
+    if (!sized) X("sig=tree-size line=%zu what=ksize/vsize %zu/%zu or the types are not those of the tree's key/value types (%d/%d bytes)",
+                  lineno, m->ksize, m->vsize, kwords(r->kk) * 8, r->vw * 8);
     /* height <= 2*log2(n+1)  <=>  2^height <= (n+1)^2 */
     size_t n = W.count;
     if (height >= 120 || ((unsigned __int128)1 << height) > (unsigned __int128)(n + 1) * (n + 1))
@@ -185,10 +258,10 @@ static int rb_check(struct Tree* m, const RefMap* r, int* height_out, int report
     else {
       int asc = 1, dsc = 1;
       for (size_t i = 0; i < r->n; i++) {
-        if (!key_matches(m, W.inorder[i], r, &r->e[i]) || node_val(m, W.inorder[i]) != r->e[i].v) asc = 0;
-        if (!key_matches(m, W.inorder[i], r, &r->e[r->n-1-i]) || node_val(m, W.inorder[i]) != r->e[r->n-1-i].v) dsc = 0;
+        if (!key_matches(m, W.inorder[i], r, r->e[i]) || !val_matches(m, W.inorder[i], r, r->e[i])) asc = 0;
+        if (!key_matches(m, W.inorder[i], r, r->e[r->n-1-i]) || !val_matches(m, W.inorder[i], r, r->e[r->n-1-i])) dsc = 0;
       }
-      if (!asc && !dsc) X("sig=tree-map line=%zu what=in-order bindings differ from the reference map", lineno);
+      if (!asc && !dsc) X("sig=tree-map line=%zu what=in-order bindings (whole keys and values) differ from the reference map", lineno);
     }
   }
   if ((size_t)height > st_maxh) st_maxh = height;
@@ -196,7 +269,8 @@ static int rb_check(struct Tree* m, const RefMap* r, int* height_out, int report
   return ok;
 }
 
-/* iteration through the public interface, compared with the reference (strictly monotone, each key once, reverse) */
+/* iteration through the public interface, compared with the reference (strictly monotone, each key once, reverse);
+   the value found beside each key is compared too */
 static void iter_check(var t, struct Tree* m, const RefMap* r) {
   size_t n = r->n, cnt = 0; int bad = 0, asc = 1, dsc = 1;
   var* seen = malloc((n + 2) * sizeof(var));
@@ -207,10 +281,10 @@ static void iter_check(var t, struct Tree* m, const RefMap* r) {
   if (bad || cnt != n) { X("sig=tree-iter line=%zu what=forward iteration yields %s%zu keys, map has %zu", lineno, bad ? "more than " : "", cnt, n); free(seen); return; }
   for (size_t i = 0; i < n; i++) {
     var node = node_of_key(seen[i]);
-    if (!key_matches(m, node, r, &r->e[i])) asc = 0;
-    if (!key_matches(m, node, r, &r->e[n-1-i])) dsc = 0;
+    if (!key_matches(m, node, r, r->e[i]) || !val_matches(m, node, r, r->e[i])) asc = 0;
+    if (!key_matches(m, node, r, r->e[n-1-i]) || !val_matches(m, node, r, r->e[n-1-i])) dsc = 0;
   }
-  if (!asc && !dsc) X("sig=tree-iter line=%zu what=forward iteration is not the strictly monotone sequence of the map's keys", lineno);
+  if (!asc && !dsc) X("sig=tree-iter line=%zu what=forward iteration is not the strictly monotone sequence of the map's bindings", lineno);
   size_t j = n; bad = 0;
   for (var k = iter_last(t); k != Terminal; k = iter_prev(t, k)) {
     if (j == 0) { bad = 1; break; }
@@ -222,32 +296,35 @@ static void iter_check(var t, struct Tree* m, const RefMap* r) {
   st_iters++;
 }
 
+/* key / value objects for a call; compound literals: valid until the end of the enclosing block */
+#define KEYOBJ(kk, kv) ((kk) == KS ? (var)$S((char*)(kv).s) : (kk) == KW ? (var)$(K3, (kv).k[0], (kv).k[1], (kv).k[2]) : (var)$I((kv).k[0]))
+#define VALOBJ(vw, v) ((vw) == 3 ? (var)$(V3, {(v)[0], (v)[1], (v)[2]}) : (vw) == 5 ? (var)$(V5, {(v)[0], (v)[1], (v)[2], (v)[3], (v)[4]}) : (var)$I((v)[0]))
+
 /* len / mem / get against the reference for every key of the map and for neighbours that are absent */
 static void map_check(var t, const RefMap* r, int full) {
   if (len(t) != r->n) X("sig=tree-map line=%zu what=len %zu, reference map has %zu", lineno, len(t), r->n);
   size_t step = full || r->n <= 64 ? 1 : r->n / 48;
   for (size_t i = 0; i < r->n; i += step) {
-    var key = r->isstr ? (var)$S(r->e[i].s) : (var)$I(r->e[i].i);
+    KeyV kv = ent_key(r->e[i]);
+    var key = KEYOBJ(r->kk, kv);
     var exc, val = NULL;
     if (!mem(t, key)) X("sig=tree-map line=%zu what=mem false for a key of the map", lineno);
     V_TRY(exc, val = get(t, key));
     if (exc) X("sig=tree-keyerror line=%zu what=get raised %s for a key of the map", lineno, v_exc_name(exc));
-    else if ((long)c_int(val) != r->e[i].v) X("sig=tree-map line=%zu what=get returned %ld, map has %ld", lineno, (long)c_int(val), r->e[i].v);
+    else {
+      long w[MAXW]; obj_valwords(val, r->vw, w);
+      for (int j = 0; j < r->vw; j++) if (w[j] != r->e[i]->v[j]) {
+        X("sig=tree-map line=%zu what=get returned a value whose word %d is %ld, map has %ld", lineno, j, w[j], r->e[i]->v[j]); break; }
+    }
     /* an absent neighbour */
-    if (!r->isstr) {
-      long a = r->e[i].i == LONG_MAX ? LONG_MIN : r->e[i].i + 1; size_t p;
-      if (!ref_find(r, a, NULL, &p)) {
-        if (mem(t, $I(a))) X("sig=tree-map line=%zu what=mem true for absent key %ld", lineno, a);
-        V_TRY(exc, val = get(t, $I(a)));
-        if (exc != KeyError) X("sig=tree-keyerror line=%zu what=get of absent key %ld: %s", lineno, a, v_exc_name(exc));
-      }
-    } else {
-      char buf[300]; size_t p; snprintf(buf, sizeof buf, "%s~", r->e[i].s);
-      if (!ref_find(r, 0, buf, &p)) {
-        if (mem(t, $S(buf))) X("sig=tree-map line=%zu what=mem true for absent key %s", lineno, buf);
-        V_TRY(exc, val = get(t, $S(buf)));
-        if (exc != KeyError) X("sig=tree-keyerror line=%zu what=get of absent key %s: %s", lineno, buf, v_exc_name(exc));
-      }
+    KeyV a = kv; char buf[300]; size_t p;
+    if (r->kk == KS) { snprintf(buf, sizeof buf, "%s~", r->e[i]->s); a.s = buf; }
+    else { int last = kwords(r->kk) - 1; a.k[last] = kv.k[last] == LONG_MAX ? LONG_MIN : kv.k[last] + 1; }
+    if (!ref_find(r, &a, &p)) {
+      var akey = KEYOBJ(r->kk, a);
+      if (mem(t, akey)) X("sig=tree-map line=%zu what=mem true for an absent key (neighbour of entry %zu)", lineno, i);
+      V_TRY(exc, val = get(t, akey));
+      if (exc != KeyError) X("sig=tree-keyerror line=%zu what=get of an absent key (neighbour of entry %zu): %s", lineno, i, v_exc_name(exc));
     }
   }
 }
@@ -264,9 +341,9 @@ static void dump_state(char* out, size_t outsz, var t, RefMap* r, int full) {
   iter_check(t, m, r);
   map_check(t, r, 0);
   st_checks++;
-  int n = snprintf(out, outsz, "n=%zu ok=%d h=%d t=", m->nitems, ok, height);
-  if (m->nitems > BIG) snprintf(out + n, outsz - n, "#%016llx", (unsigned long long)tree_hash(m, m->root, r->isstr));
-  else { dlen = 0; if (dbuf) dbuf[0] = 0; preorder(m, m->root, r->isstr, 0); snprintf(out + n, outsz - n, "%s", dbuf ? dbuf : "."); }
+  int n = snprintf(out, outsz, "n=%zu ok=%d h=%d sz=%zu/%zu t=", m->nitems, ok, height, m->ksize, m->vsize);
+  if (m->nitems > BIG) snprintf(out + n, outsz - n, "#%016llx", (unsigned long long)tree_hash(m, m->root, r));
+  else { dlen = 0; if (dbuf) dbuf[0] = 0; preorder(m, m->root, r, 0); snprintf(out + n, outsz - n, "%s", dbuf ? dbuf : "."); }
 }
 
 static void print_iter(const char* name, var t, RefMap* r, int backward) {
@@ -274,16 +351,11 @@ static void print_iter(const char* name, var t, RefMap* r, int backward) {
   size_t n = m->nitems, cnt = 0; int nonterm = 0;
   uint64_t h = FNV_INIT;
   dlen = 0; dput("");
-  char b[64];
   for (var k = backward ? iter_last(t) : iter_init(t); k != Terminal; k = backward ? iter_prev(t, k) : iter_next(t, k)) {
     if (cnt > n) { nonterm = 1; break; }
     var node = node_of_key(k);
-    h = mixstep(mixstep(h, node_keyhash(m, node, r->isstr)), (uint64_t)node_val(m, node));
-    if (n <= BIG) {
-      if (cnt) dput(" ");
-      if (r->isstr) dput(c_str(k)); else { snprintf(b, sizeof b, "%ld", (long)c_int(k)); dput(b); }
-      snprintf(b, sizeof b, ":%ld", node_val(m, node)); dput(b);
-    }
+    h = mixstep(mixstep(h, node_keyhash(m, node, r->kk)), node_valhash(m, node, r->vw));
+    if (n <= BIG) { if (cnt) dput(" "); dput_entry(m, node, r); }
     cnt++;
   }
   if (nonterm) { X("sig=tree-iter line=%zu what=%s iteration does not reach Terminal", lineno, name); O("%s NOT-TERMINATED", name); return; }
@@ -305,6 +377,34 @@ static int parse_nat(const char* s, long* out) {
   if (!*s) return 0; for (const char* p = s; *p; p++) if (*p < '0' || *p > '9') return 0;
   return parse_long(s, out);
 }
+/* exactly n comma-separated integers */
+static int parse_words(const char* s, int n, long* out) {
+  char buf[256]; if (strlen(s) >= sizeof buf) return 0;
+  strcpy(buf, s);
+  char* p = buf;
+  for (int i = 0; i < n; i++) {
+    char* c = strchr(p, ',');
+    if ((c != NULL) != (i + 1 < n)) return 0;
+    if (c) *c = 0;
+    if (!parse_long(p, &out[i])) return 0;
+    p = c ? c + 1 : p;
+  }
+  return 1;
+}
+static int parse_key(const char* tok, int kk, KeyV* k) {
+  memset(k, 0, sizeof *k);
+  if (kk == KS) { if (!*tok) return 0; k->s = tok; return 1; }
+  return parse_words(tok, kwords(kk), k->k);
+}
+static int parse_val(const char* tok, int vw, long* v) {
+  memset(v, 0, MAXW * sizeof(long));
+  return parse_words(tok, vw, v);
+}
+static int parse_kind(const char* tok, int* kk, int* vw) {
+  if (tok[0] == 'i') *kk = KI; else if (tok[0] == 's') *kk = KS; else if (tok[0] == 'w') *kk = KW; else return 0;
+  if (tok[1] == 0) *vw = 1; else if (!strcmp(tok + 1, "3")) *vw = 3; else if (!strcmp(tok + 1, "5")) *vw = 5; else return 0;
+  return 1;
+}
 
 int main(int argc, char** argv) {
   v_init();
@@ -323,11 +423,10 @@ int main(int argc, char** argv) {
     { struct itimerval tv = { {0, 0}, {4, 0} }; setitimer(ITIMER_PROF, &tv, NULL); }
     char* l = strdup(lines[li]);
     split(l);
-    long T = -1, S = -1, v = 0, ki = 0; const char* ks = NULL;
+    long T = -1, S = -1; KeyV kv; long vv[MAXW];
+    memset(&kv, 0, sizeof kv); memset(vv, 0, sizeof vv);
     #define BAD do { O("bad-op"); goto next; } while (0)
     #define NEED_TREE(ix) do { if (!parse_nat(toks[ix], &T) || T >= MAXT || !trees[T]) BAD; } while (0)
-    #define PARSE_KEY(tok, isstr) do { if (isstr) { ks = (tok); ki = 0; if (!*ks) BAD; } else { ks = NULL; if (!parse_long((tok), &ki)) BAD; } } while (0)
-    #define KEYOBJ(isstr) ((isstr) ? (var)$S((char*)ks) : (var)$I(ki))
     if (ntok == 0) BAD;
     const char* op = toks[0];
 
@@ -337,26 +436,25 @@ int main(int argc, char** argv) {
     }
     else if (!strcmp(op, "new") && ntok >= 3) {
       if (!parse_nat(toks[1], &T) || T >= MAXT) BAD;
-      int isstr; if (!strcmp(toks[2], "i")) isstr = 0; else if (!strcmp(toks[2], "s")) isstr = 1; else BAD;
+      int kk, vw; if (!parse_kind(toks[2], &kk, &vw)) BAD;
       if ((ntok - 3) % 2) BAD;
       int np = (ntok - 3) / 2;
-      for (int i = 0; i < np; i++) { long x; if (!isstr && !parse_long(toks[3+2*i], &x)) BAD; if (!parse_long(toks[4+2*i], &x)) BAD; }
+      for (int i = 0; i < np; i++) { if (!parse_key(toks[3+2*i], kk, &kv) || !parse_val(toks[4+2*i], vw, vv)) BAD; }
       /* the constructor's argument tuple: key type, value type, k1, v1, ..., Terminal */
       var* items = malloc((2 * np + 3) * sizeof(var));
-      items[0] = isstr ? String : Int; items[1] = Int;
+      items[0] = ktype_of(kk); items[1] = vtype_of(vw);
       for (int i = 0; i < np; i++) {
-        long x;
-        if (isstr) items[2+2*i] = new_raw(String, $S(toks[3+2*i])); else { parse_long(toks[3+2*i], &x); items[2+2*i] = new_raw(Int, $I(x)); }
-        parse_long(toks[4+2*i], &x); items[3+2*i] = new_raw(Int, $I(x));
+        parse_key(toks[3+2*i], kk, &kv); parse_val(toks[4+2*i], vw, vv);
+        items[2+2*i] = new_raw_with(ktype_of(kk), tuple(KEYOBJ(kk, kv)));
+        items[3+2*i] = new_raw_with(vtype_of(vw), tuple(VALOBJ(vw, vv)));
       }
       items[2+2*np] = Terminal;
       if (trees[T]) { del(trees[T]); trees[T] = NULL; }
       trees[T] = new_with(Tree, $(Tuple, items));
-      ref_clear(&refs[T]); refs[T].isstr = isstr;
+      ref_clear(&refs[T]); refs[T].kk = kk; refs[T].vw = vw;
       for (int i = 0; i < np; i++) {
-        long x, kk = 0; parse_long(toks[4+2*i], &x);
-        if (!isstr) parse_long(toks[3+2*i], &kk);
-        ref_set(&refs[T], kk, isstr ? toks[3+2*i] : NULL, x);
+        parse_key(toks[3+2*i], kk, &kv); parse_val(toks[4+2*i], vw, vv);
+        ref_set(&refs[T], &kv, vv);
       }
       for (int i = 0; i < 2 * np; i++) del_raw(items[2+i]);
       free(items);
@@ -364,11 +462,12 @@ int main(int argc, char** argv) {
       O("new ok %s", dump); st_ops++;
     }
     else if (!strcmp(op, "set") && ntok == 4) {
-      NEED_TREE(1); PARSE_KEY(toks[2], refs[T].isstr); if (!parse_long(toks[3], &v)) BAD;
+      NEED_TREE(1);
+      if (!parse_key(toks[2], refs[T].kk, &kv) || !parse_val(toks[3], refs[T].vw, vv)) BAD;
       size_t before = len(trees[T]), p;
-      int had = ref_find(&refs[T], ki, ks, &p);
-      set(trees[T], KEYOBJ(refs[T].isstr), $I(v));
-      ref_set(&refs[T], ki, ks, v);
+      int had = ref_find(&refs[T], &kv, &p);
+      set(trees[T], KEYOBJ(refs[T].kk, kv), VALOBJ(refs[T].vw, vv));
+      ref_set(&refs[T], &kv, vv);
       if (had) st_set_upd++; else st_set_new++;
       if (len(trees[T]) != before + (had ? 0 : 1)) X("sig=tree-map line=%zu what=set of %s key changed len from %zu to %zu", lineno, had ? "a present" : "an absent", before, len(trees[T]));
       dump_state(dump, sizeof dump, trees[T], &refs[T], automode);
@@ -378,46 +477,55 @@ int main(int argc, char** argv) {
       NEED_TREE(1);
       struct Tree* m = trees[T]; size_t p;
       static char keycopy[512];
-      if (ntok == 3) PARSE_KEY(toks[2], refs[T].isstr);
+      if (ntok == 3) { if (!parse_key(toks[2], refs[T].kk, &kv)) BAD; }
       else {
         /* white-box choice of the key: the root's, or that of the first node in preorder that has two children */
         var pick = op[3] == 'r' ? m->root : first_two_children(m, m->root);
         if (!pick) { O("%s none", op); goto next; }
-        if (refs[T].isstr) { snprintf(keycopy, sizeof keycopy, "%s", c_str(Tree_Key(m, pick))); ks = keycopy; ki = 0; }
-        else { ks = NULL; ki = (long)c_int(Tree_Key(m, pick)); }
+        if (refs[T].kk == KS) { snprintf(keycopy, sizeof keycopy, "%s", c_str(Tree_Key(m, pick))); kv.s = keycopy; }
+        else node_keywords(m, pick, refs[T].kk, kv.k);
       }
-      int had = ref_find(&refs[T], ki, ks, &p);
+      int had = ref_find(&refs[T], &kv, &p);
       if (had) {   /* statistics about the case being exercised (white-box, before the removal) */
         var node = m->root;
-        while (node) { int c = cmp(Tree_Key(m, node), KEYOBJ(refs[T].isstr)); if (c == 0) break; node = c < 0 ? *Tree_Left(m, node) : *Tree_Right(m, node); }
+        while (node) { int c = cmp(Tree_Key(m, node), KEYOBJ(refs[T].kk, kv)); if (c == 0) break; node = c < 0 ? *Tree_Left(m, node) : *Tree_Right(m, node); }
         if (node) {
           if (node == m->root) st_remroot++;
           var victim = node;
-          if (*Tree_Left(m, node) && *Tree_Right(m, node)) { st_rem2++; victim = Tree_Maximum(m, *Tree_Left(m, node)); }
+          if (*Tree_Left(m, node) && *Tree_Right(m, node)) {
+            st_rem2++; victim = Tree_Maximum(m, *Tree_Left(m, node));
+            if (kwords(refs[T].kk) != refs[T].vw) st_rem2_wide++;
+          }
           if (Tree_Is_Black(m, victim)) st_remblack++;
         }
       }
-      var exc; V_TRY(exc, rem(trees[T], KEYOBJ(refs[T].isstr)));
+      var exc; V_TRY(exc, rem(trees[T], KEYOBJ(refs[T].kk, kv)));
       if (had && exc) X("sig=tree-keyerror line=%zu what=rem of a present key raised %s", lineno, v_exc_name(exc));
       if (!had && exc != KeyError) X("sig=tree-keyerror line=%zu what=rem of an absent key raised %s instead of KeyError", lineno, v_exc_name(exc));
-      if (had) { ref_rem(&refs[T], ki, ks); st_rem++; } else st_keyerr++;
+      if (had) { ref_rem(&refs[T], &kv); st_rem++; } else st_keyerr++;
       dump_state(dump, sizeof dump, trees[T], &refs[T], automode);
       O("rem %s %s", exc ? v_exc_name(exc) : "ok", dump); st_ops++;
     }
     else if (!strcmp(op, "get") && ntok == 3) {
-      NEED_TREE(1); PARSE_KEY(toks[2], refs[T].isstr);
-      size_t p; int had = ref_find(&refs[T], ki, ks, &p);
-      var exc, val = NULL; V_TRY(exc, val = get(trees[T], KEYOBJ(refs[T].isstr)));
+      NEED_TREE(1); if (!parse_key(toks[2], refs[T].kk, &kv)) BAD;
+      size_t p; int had = ref_find(&refs[T], &kv, &p);
+      var exc, val = NULL; V_TRY(exc, val = get(trees[T], KEYOBJ(refs[T].kk, kv)));
       if (had && exc) X("sig=tree-keyerror line=%zu what=get of a present key raised %s", lineno, v_exc_name(exc));
       if (!had && exc != KeyError) X("sig=tree-keyerror line=%zu what=get of an absent key raised %s instead of KeyError", lineno, v_exc_name(exc));
-      if (had && !exc && (long)c_int(val) != refs[T].e[p].v) X("sig=tree-map line=%zu what=get returned %ld, reference map has %ld", lineno, (long)c_int(val), refs[T].e[p].v);
-      if (exc) { O("get %s", v_exc_name(exc)); st_keyerr++; } else O("get %ld", (long)c_int(val));
+      if (exc) { O("get %s", v_exc_name(exc)); st_keyerr++; }
+      else {
+        long w[MAXW]; obj_valwords(val, refs[T].vw, w);
+        if (had) for (int j = 0; j < refs[T].vw; j++) if (w[j] != refs[T].e[p]->v[j]) {
+          X("sig=tree-map line=%zu what=get returned a value whose word %d is %ld, reference map has %ld", lineno, j, w[j], refs[T].e[p]->v[j]); break; }
+        dlen = 0; dput(""); dput_words(w, refs[T].vw);
+        O("get %s", dbuf);
+      }
       st_ops++;
     }
     else if (!strcmp(op, "mem") && ntok == 3) {
-      NEED_TREE(1); PARSE_KEY(toks[2], refs[T].isstr);
-      size_t p; int had = ref_find(&refs[T], ki, ks, &p);
-      int got = mem(trees[T], KEYOBJ(refs[T].isstr)) ? 1 : 0;
+      NEED_TREE(1); if (!parse_key(toks[2], refs[T].kk, &kv)) BAD;
+      size_t p; int had = ref_find(&refs[T], &kv, &p);
+      int got = mem(trees[T], KEYOBJ(refs[T].kk, kv)) ? 1 : 0;
       if (got != had) X("sig=tree-map line=%zu what=mem returned %d, reference map says %d", lineno, got, had);
       O("mem %d", got); st_ops++;
     }
@@ -437,14 +545,8 @@ int main(int argc, char** argv) {
     else if (!strcmp(op, "assign") && ntok == 3) {
       NEED_TREE(1); if (!parse_nat(toks[2], &S) || S >= MAXT || !trees[S]) BAD;
       assign(trees[T], trees[S]);
-      if (T == S) {
-        /* the ordered-map meaning of t := t is "unchanged" */
-        struct Tree* m = trees[T];
-        if (m->nitems != refs[T].n) {
-          X("sig=tree-self-assign line=%zu what=assign(t, t) left %zu of %zu bindings", lineno, m->nitems, refs[T].n);
-          ref_clear(&refs[T]);   /* follow the implementation from here on */
-        }
-      } else ref_copy(&refs[T], &refs[S]);
+      /* the ordered-map meaning of t := t is "unchanged": the reference map stays, the checks below compare */
+      if (T != S) ref_copy(&refs[T], &refs[S]);
       dump_state(dump, sizeof dump, trees[T], &refs[T], automode);
       O("assign ok %s", dump); st_ops++;
     }
@@ -477,8 +579,8 @@ int main(int argc, char** argv) {
   next:
     free(l);
   }
-  I("ops=%zu set_new=%zu set_update=%zu rem=%zu rem_two_children=%zu rem_root=%zu rem_black=%zu keyerror=%zu max_n=%zu max_height=%zu full_checks=%zu",
-    st_ops, st_set_new, st_set_upd, st_rem, st_rem2, st_remroot, st_remblack, st_keyerr, st_maxn, st_maxh, st_checks);
+  I("ops=%zu set_new=%zu set_update=%zu rem=%zu rem_two_children=%zu rem_two_children_ksize_ne_vsize=%zu rem_root=%zu rem_black=%zu keyerror=%zu max_n=%zu max_height=%zu full_checks=%zu",
+    st_ops, st_set_new, st_set_upd, st_rem, st_rem2, st_rem2_wide, st_remroot, st_remblack, st_keyerr, st_maxn, st_maxh, st_checks);
   for (int i = 0; i < MAXT; i++) if (trees[i]) { del(trees[i]); trees[i] = NULL; }
   return 0;
 }
